@@ -325,6 +325,7 @@ class Adapter:
         self.applied: Optional[dict] = None
         self.apply_error: Optional[str] = None
         self.pass_no = 0
+        self.override: dict = {}        # url -> bytes handed to the validator instead of the served ones
 
     def classify(self, url: str):
         p = urllib.parse.urlparse(url)
@@ -344,6 +345,8 @@ class Adapter:
         m = re.match(r"^https?://[^/]+(/.*)$", url)
         r = self.client.get(m.group(1) if m else url, headers=headers)
         data = r.get_data(as_text=False)
+        if url in self.override and r.status_code in (200, 206):
+            data = self.override[url]
         cls, rep = self.classify(url)
         c = self.corruption
         rewritten = False
@@ -551,3 +554,69 @@ def run_case(app, case: Case, wall_limit: float = 30.0) -> Result:
         except asyncio.TimeoutError:
             res.timed_out = True
     return res
+
+
+# --------------------------------------------------------------------------- single segments, chosen expectations
+
+async def _direct(app, case: Case, plan, out: list, per_rep: int, max_reps: Optional[int] = None):
+    """Load the manifest and the init segments exactly as a session does, then create *real*
+    `MediaSegment` objects on the real `Representation`s with expectations chosen by `plan` (None, 0,
+    exact, tolerance boundaries …) over the served or boundary-patched bytes, and run the real
+    `validate_segment()` on each."""
+    from dashlive.mpeg.dash.validator import ConcurrentWorkerPool, DashValidator, ValidatorOptions
+    from dashlive.mpeg.dash.validator.media_segment import MediaSegment
+    url = HOST + case.path()
+    adapter = Adapter(app.client(), urllib.parse.urlparse(url).path, None)
+    with ThreadPoolExecutor(max_workers=2) as tpe:
+        opts = ValidatorOptions(duration=case.duration, encrypted=case.encrypted(), pool=ConcurrentWorkerPool(tpe))
+        opts.log = logging.getLogger("c18.validator")
+        dv = DashValidator(url, adapter, mode=case.mode, options=opts)
+        if not await dv.load():
+            return
+        await dv.prefetch_media_info()
+        done_types: dict = {}
+        for p in dv.manifest.periods:
+            for a in p.adaptation_sets:
+                for rep in a.representations:
+                    segs = rep.media_segments
+                    if not segs or rep.init_segment is None or rep.init_segment.dash_representation is None:
+                        continue
+                    if max_reps is not None:
+                        # one Representation per content type, up to `max_reps` (video first, then audio …)
+                        if a.contentType in done_types or len(done_types) >= max_reps:
+                            continue
+                        done_types[a.contentType] = rep.id
+                    idx = sorted({0, len(segs) // 2, len(segs) - 1})[:per_rep]
+                    rsnap = snap_rep(rep)
+                    for i in idx:
+                        base = segs[i]
+                        r0 = await adapter.get(base.url)
+                        if r0.status_code != 200:
+                            continue
+                        ctype = r0.headers.get("Content-Type", "")
+                        for label, exp, data in plan(rsnap, snap_segment(base), r0.get_data()):
+                            adapter.override = {base.url: data}
+                            ms = MediaSegment(rep, url=base.url, presentation_time_offset=exp["pto"],
+                                              tolerance=exp["tol"], expected_duration=exp["dur"],
+                                              expected_seg_num=exp["seq"], expected_decode_time=exp["dt"])
+                            crashed = None
+                            try:
+                                await ms.validate_segment()
+                            except Exception as e:
+                                crashed = f"{type(e).__name__}: {e}"
+                            out.append({"rep": rsnap, "index": i, "label": label, "seg": snap_segment(ms),
+                                        "data": data, "status": 200, "content_type": ctype, "crashed": crashed,
+                                        "init_url": rep.init_segment.url})
+                        adapter.override = {}
+        out.append({"inits": {ex.rep: ex.data for ex in adapter.exchanges if ex.cls == "init" and ex.status == 200}})
+
+
+def run_direct(app, case: Case, plan, per_rep: int = 3, wall_limit: float = 60.0,
+               max_reps: Optional[int] = None) -> list:
+    out: list = []
+    with appboot.Clock(case.now):
+        try:
+            asyncio.run(asyncio.wait_for(_direct(app, case, plan, out, per_rep, max_reps), timeout=wall_limit))
+        except asyncio.TimeoutError:
+            out.append({"timed_out": True})
+    return out
